@@ -148,6 +148,6 @@ package airgapped
 //@   safety C18
 //@   nosafety
 //@   requires am != nil
-//@   modifies *
+//@   pure
 //@   modifies $bufc
 //@   ensures[C18.keyring.nonnil] result1 == nil ==> result0 != nil
